@@ -177,8 +177,24 @@ def run(ctx, rep):
         bad = [v for v in sub.violations if v.rule == rname]
         rep.require(not bad, "sub-slices", "%s rule of %s" % (rname, pid), "src/string_table.rs" if pid == "C15" else "src/note.rs", what,
                     "%s: %s" % (what, "; ".join("%s: %s" % (v.key, v.msg[:200]) for v in bad[:3])))
+    # ---- the API surface: "every byte slice or string handed out by the slice parser" - the public functions outside elf_stream / to_str
+    # whose return type carries a byte slice or a str reference are exactly the ones judged above (and by the C15 / C14 rules run here);
+    # a further one hands out bytes whose range no rule decides
+    JUDGED = {"string_table::StringTable::get_raw", "string_table::StringTable::get", "elf_bytes::ElfBytes::section_data",
+              "elf_bytes::ElfBytes::segment_data", "note::NoteAny::name_str"}
+    n_api = 0
+    for fn_ in F.all_fns():
+        o_ = (fn_.get("sig") or {}).get("output", "")
+        if fn_.get("kind") == "Closure" or not fn_.get("reachable_pub") or fn_["module"] in ("elf_stream", "to_str"):
+            continue
+        if "&" in o_ and ("[u8]" in o_ or re.search(r"&('\w+ )?str\b", o_)):
+            n_api += 1
+            rep.require(fn_["qual"] in JUDGED, "api-surface", fn_["qual"], wh(fn_["span"]), "a judged accessor",
+                        "%s is a public function that hands out a byte slice / string (%s) and is not one of the accessors whose range the rules decide: "
+                        "UNRECOGNISED - it is not established that what it returns is the exact header-designated range" % (fn_["qual"], o_[:80]))
+    rep.floor("api-surface", "public slice-returning functions of the slice parser", n_api, 5)
     # the ranges are read off the decoded header structs: that the structs hold the file's fields (not a normalised / clamped copy) is C02
     from ._common import premise
-    premise(ctx, rep, "C02", "the header fields that designate ranges are the file's fields", rules={"decode", "decode-reads", "decode-size", "decode-errors"}, where="src/section.rs, src/segment.rs")
+    premise(ctx, rep, "C02", "the header fields that designate ranges are the file's fields", rules={"decode", "decode-reads", "decode-size", "decode-errors", "premise"}, where="src/section.rs, src/segment.rs")
     rep.trusted_base += ["C06: no allocation, hence a &'data [u8] can only be a sub-slice of the input or a 'static constant",
                         "value-preservation of try_into / checked_add on success; semantics of <[u8]>::get"]
